@@ -24,6 +24,7 @@ def main():
             code = mod.replay(a.replay)
         else:
             rep = mod.run(a.tier, only=a.only)
+            rep.partial = bool(a.only)
             code = rep.finish()
     except SystemExit:
         raise
